@@ -1,5 +1,7 @@
 import Pkgcore.Spec.C07
 import Pkgcore.Proofs.C02
+import Pkgcore.Proofs.C04
+import Pkgcore.Model.C03
 /-! # C07 helper lemmas -/
 namespace Pkgcore.C07
 open Pkgcore.C07.Spec
@@ -661,5 +663,110 @@ theorem aliveStep_hitsEqual (H : HK → Int) : HitsEqual (aliveStep H) := by
     subst h2
     exact ⟨alive.property _ hr, he⟩
   · cases h
+
+/-! ## atoms: C04's `atom.match` reads an atom only through its canonical form -/
+
+/-- the version restriction of an atom depends on the written version and revision only through their PMS value -/
+theorem versionRestr_key_congr (op : Pkgcore.C02.Op) (v v' : Ver) (r r' : Str) (neg : Bool) (p : Pkgcore.C04.Pkg)
+    (hv : Pkgcore.C01.Spec.WF v) (hv' : Pkgcore.C01.Spec.WF v') (hp : Pkgcore.C01.Spec.WF p.ver)
+    (hk : Pkgcore.C01.key v (some r) = Pkgcore.C01.key v' (some r')) :
+    Pkgcore.C04.versionRestr op v r neg p = Pkgcore.C04.versionRestr op v' r' neg p := by
+  have hk0 : Pkgcore.C01.key v none = Pkgcore.C01.key v' none := by
+    simp only [Pkgcore.C01.key, Prod.mk.injEq] at hk ⊢
+    exact ⟨hk.1, hk.2.1, hk.2.2.1, hk.2.2.2.1, trivial⟩
+  by_cases hg : op = .glob
+  · subst hg
+    simp only [Pkgcore.C04.versionRestr, Pkgcore.C04.verGlobMatch]
+    rw [(Pkgcore.C02.verHashKey_eq_iff v v' r r' hv hv').mpr hk]
+  · rw [Pkgcore.C04.versionRestr_eq op v r neg p hv hp, Pkgcore.C04.versionRestr_eq op v' r' neg p hv' hp]
+    simp only [hg, if_false]
+    have c1 : Pkgcore.C01.Spec.pmsCmp p.ver (some p.rev) v (some r) = Pkgcore.C01.Spec.pmsCmp p.ver (some p.rev) v' (some r') := by
+      rw [Pkgcore.C01.pmsCmp_eq_key _ _ _ _ hp hv, Pkgcore.C01.pmsCmp_eq_key _ _ _ _ hp hv', hk]
+    have c0 : Pkgcore.C01.Spec.pmsCmp p.ver none v none = Pkgcore.C01.Spec.pmsCmp p.ver none v' none := by
+      rw [Pkgcore.C01.pmsCmp_eq_key _ _ _ _ hp hv, Pkgcore.C01.pmsCmp_eq_key _ _ _ _ hp hv', hk0]
+    cases op <;> simp only [Pkgcore.C04.Spec.opSpec, c1, c0] <;> exact absurd rfl hg
+
+/-- the optional version restriction, from the operator text and the canonical version of the two atoms -/
+theorem vopRestr_of_canon (vop vop' : Option (Pkgcore.C02.Op × Ver × Str)) (neg : Bool) (p : Pkgcore.C04.Pkg)
+    (ho : (match vop with | none => ([] : Str) | some (o, _, _) => o.str) = (match vop' with | none => [] | some (o, _, _) => o.str))
+    (hk : Pkgcore.C02.Spec.verCanon (vop.map (·.2)) = Pkgcore.C02.Spec.verCanon (vop'.map (·.2)))
+    (hw : Pkgcore.C04.Spec.vopWF vop) (hw' : Pkgcore.C04.Spec.vopWF vop') (hp : Pkgcore.C01.Spec.WF p.ver) :
+    (match vop with | some (op, v, r) => [Pkgcore.C04.versionRestr op v r neg] | none => []).all (fun f => f p) =
+    (match vop' with | some (op, v, r) => [Pkgcore.C04.versionRestr op v r neg] | none => []).all (fun f => f p) := by
+  cases vop with
+  | none =>
+    cases vop' with
+    | none => rfl
+    | some q => obtain ⟨o, v, r⟩ := q; cases o <;> simp [Pkgcore.C02.Op.str] at ho
+  | some q =>
+    obtain ⟨o, v, r⟩ := q
+    cases vop' with
+    | none => cases o <;> simp [Pkgcore.C02.Op.str] at ho
+    | some q' =>
+      obtain ⟨o', v', r'⟩ := q'
+      have heq : o = o' := Pkgcore.C02.opStr_inj o o' ho
+      subst heq
+      simp only [Option.map_some, Pkgcore.C02.Spec.verCanon, Option.some.injEq] at hk
+      simp only [List.all_cons, List.all_nil, Bool.and_true]
+      exact versionRestr_key_congr o v v' r r' neg p hw hw' hp hk
+
+theorem orEmpty_inj (s t : Option Str) (hs : (s != some []) = true) (ht : (t != some []) = true)
+    (h : Pkgcore.C02.orEmpty s = Pkgcore.C02.orEmpty t) : s = t := by
+  cases s <;> cases t <;> simp_all [Pkgcore.C02.orEmpty]
+
+theorem perm_of_sortUse (x y : List Str) (h : Pkgcore.C02.sortUse x = Pkgcore.C02.sortUse y) : x.Perm y := by
+  unfold Pkgcore.C02.sortUse at h
+  exact (List.mergeSort_perm x _).symm.trans (h ▸ List.mergeSort_perm y _)
+
+/-- the USE restrictions, from the sorted USE deps of the two atoms -/
+theorem useRestr_of_canon (u u' : Option (List Str)) (p : Pkgcore.C04.Pkg)
+    (h : u.map Pkgcore.C02.sortUse = u'.map Pkgcore.C02.sortUse) :
+    (match u.map (fun (x : List Str) => x.map Pkgcore.C03.lexUseDep) with | some deps => [Pkgcore.C04.useRestrs deps] | none => []).all (fun f => f p) =
+    (match u'.map (fun (x : List Str) => x.map Pkgcore.C03.lexUseDep) with | some deps => [Pkgcore.C04.useRestrs deps] | none => []).all (fun f => f p) := by
+  cases u with
+  | none => cases u' with
+    | none => rfl
+    | some y => simp at h
+  | some x => cases u' with
+    | none => simp at h
+    | some y =>
+      simp only [Option.map_some, Option.some.injEq] at h
+      simp only [Option.map_some, List.all_cons, List.all_nil, Bool.and_true, Pkgcore.C04.useRestrs_eq]
+      exact ((perm_of_sortUse x y h).map _).all_eq
+
+/-- **C04's `atom.match` depends on an atom only through C02's canonical form** -/
+theorem atomMatch_of_canon (a b : Pkgcore.C02.Atom) (ha : atomOkB a = true) (hb : atomOkB b = true)
+    (hsa : slotPartsOkB a = true) (hsb : slotPartsOkB b = true)
+    (h : Pkgcore.C02.Spec.atomCanon a = Pkgcore.C02.Spec.atomCanon b) (p : Pkgcore.C04.Pkg)
+    (hp : Pkgcore.C04.Spec.Pkg.WF p) :
+    Pkgcore.C04.atomMatch (Pkgcore.C03.toC04 a) p = Pkgcore.C04.atomMatch (Pkgcore.C03.toC04 b) p := by
+  have hwa : Pkgcore.C04.Spec.vopWF a.vop := by
+    have := atomWF_of_ok a ha
+    simp only [Pkgcore.C02.Spec.Atom.WF, Pkgcore.C02.Atom.vr] at this
+    cases hv : a.vop with
+    | none => trivial
+    | some q => obtain ⟨o, v, r⟩ := q; rw [hv] at this; exact this
+  have hwb : Pkgcore.C04.Spec.vopWF b.vop := by
+    have := atomWF_of_ok b hb
+    simp only [Pkgcore.C02.Spec.Atom.WF, Pkgcore.C02.Atom.vr] at this
+    cases hv : b.vop with
+    | none => trivial
+    | some q => obtain ⟨o, v, r⟩ := q; rw [hv] at this; exact this
+  obtain ⟨cat, pkg, vop, blocks, strong, negate, slot, subslot, slotOp, use, repo⟩ := a
+  obtain ⟨cat', pkg', vop', blocks', strong', negate', slot', subslot', slotOp', use', repo'⟩ := b
+  simp only [Pkgcore.C02.Spec.atomCanon, Prod.mk.injEq, Pkgcore.C02.Atom.opStr, Pkgcore.C02.Atom.vr,
+    Pkgcore.C02.Atom.useAttr] at h
+  obtain ⟨h1, h2, h3, h4, _, _, h7, h8, h9, _, h11, h12⟩ := h
+  simp only [slotPartsOkB, Bool.and_eq_true] at hsa hsb
+  have hs : slot = slot' := orEmpty_inj slot slot' hsa.1 hsb.1 h8
+  have hss : subslot = subslot' := orEmpty_inj subslot subslot' hsa.2 hsb.2 h9
+  subst h1 h2 h7 hs hss h12
+  have hvr := vopRestr_of_canon vop vop' negate p h3 h4 hwa hwb hp
+  have hur := useRestr_of_canon use use' p h11
+  simp only [Pkgcore.C04.atomMatch, Pkgcore.C04.restrictions, Pkgcore.C03.toC04, List.all_append]
+  have e1 : ∀ (x1 x2 c c' d e e' : Bool), c = c' → e = e' →
+      ((((x1 && x2) && c) && d) && e) = ((((x1 && x2) && c') && d) && e') := by
+    intro x1 x2 c c' d e e' k1 k2; rw [k1, k2]
+  exact e1 _ _ _ _ _ _ _ hvr hur
 
 end Pkgcore.C07
